@@ -176,7 +176,11 @@ def box(types, v, st):
         return Val('any', {('t',): tag, ('p',): z3.IntVal(0)})
     if len(lvs) == 1 and lvs[0][1] == 'B':
         return Val('any', {('t',): tag, ('p',): ops.bool_to_int(v.lv[lvs[0][0]])})
-    p = z3.Int(fresh_name('box'))
+    # structured value: the payload is a function of the value (equal values box to equal
+    # interfaces); the per-type unbox functions are its inverses
+    args = canon_args(types, v)
+    pk = ops.uf('boxpack_%d' % types.typeid(v.t), *([a.sort() for a in args] + [I]))
+    p = pk(*args)
     if st is not None:
         for (path, s, role) in lvs:
             f = ops.uf('unbox_%d%s' % (types.typeid(v.t), pathstr(path)), I, sort_of(s))
@@ -254,3 +258,19 @@ def flat_key_args(types, v):
     if k == 'iface':
         return [v.lv[('t',)], v.lv[('p',)]]
     return None
+
+
+def canon_args(types, v):
+    """terms identifying a value: small fixed arrays are expanded to their elements"""
+    k = types.kind(v.t)
+    if k == 'struct':
+        out = []
+        for f in types.fields(v.t):
+            out += canon_args(types, v.sub(('.' + f['name'],), f['type']))
+        return out
+    if k == 'array' and types.desc(v.t)['len'] <= 64:
+        out = []
+        for i in range(types.desc(v.t)['len']):
+            out += canon_args(types, index_array_val(types, v, z3.IntVal(i)))
+        return out
+    return [v.lv[p] for (p, s, role) in types.leaves(v.t)]
